@@ -60,6 +60,11 @@ func (c *Comparer) allElided(lo, hi int) bool {
 
 // unwrap resolves interface / pointer layers and checks the dynamic type of a union value.
 func (c *Comparer) unwrap(v reflect.Value, n *Node, uni int, path string) (reflect.Value, bool) {
+	if !v.IsValid() {
+		// reflect.ValueOf(nil): an interface-typed root that was never written
+		c.add(path, "nil", "no value at all, want production P%d", n.Prod)
+		return v, false
+	}
 	if uni >= 0 {
 		for v.Kind() == reflect.Interface {
 			if v.IsNil() {
@@ -771,6 +776,9 @@ func (c *Comparer) Leaks(v reflect.Value, n *Node, uni int, path string) {
 }
 
 func (c *Comparer) unwrapQuiet(v reflect.Value, n *Node) (reflect.Value, bool) {
+	if !v.IsValid() {
+		return v, false
+	}
 	for v.Kind() == reflect.Ptr || v.Kind() == reflect.Interface {
 		if v.IsNil() {
 			return v, false
@@ -846,6 +854,9 @@ func PlainMasked(v reflect.Value) string { return plain(v, true) }
 
 // HoldsElidedToken reports whether some lexer.Token / []lexer.Token field below v holds a token of an elided type.
 func HoldsElidedToken(g *Grammar, v reflect.Value) bool {
+	if !v.IsValid() {
+		return false
+	}
 	for v.Kind() == reflect.Ptr || v.Kind() == reflect.Interface {
 		if v.IsNil() {
 			return false
@@ -889,6 +900,9 @@ func PlainNoElided(g *Grammar, v reflect.Value) string {
 var plainElide *Grammar
 
 func plain(v reflect.Value, mask bool) string {
+	if !v.IsValid() {
+		return "nil"
+	}
 	for v.Kind() == reflect.Ptr || v.Kind() == reflect.Interface {
 		if v.IsNil() {
 			return "nil"
